@@ -31,7 +31,7 @@ ASSUMPTIONS = [
 ]
 
 NAN = float("nan")
-LABEL_SHAPES_QUICK = [(2,), (3,), (2, 2), (1, 3), (3, 1), (2, 3), (1, 2, 2), (2, 1, 2), (2, 2, 1)]
+LABEL_SHAPES_QUICK = [(2,), (3,), (2, 2), (1, 3), (3, 1), (2, 3), (1, 2, 2), (2, 1, 2), (2, 2, 1), (2, 2, 2)]
 LABEL_SHAPES_THOROUGH = LABEL_SHAPES_QUICK + [(3, 2), (4,), (1, 2, 3), (2, 3, 1), (3, 1, 2)]
 FUNCS = ["sum", "nansum", "nanmax", "count", "mean", "var", "nanargmax", "nanfirst"]
 CHUNKED_FUNCS = ["sum", "nanmax", "count", "nanargmax", "var"]
@@ -51,8 +51,10 @@ def shards(tier, seed):
         for extra in (0, 1):
             nparts = {1: 1, 2: 1, 3: 2, 4: 6}.get(size, 4 if tier == "quick" else 24)
             for part in range(nparts):
-                out.append(dict(shape=list(shp), extra=extra, part=part, nparts=nparts, tier=tier,
-                                stratum=list(b["stratum"]) if (b["stratum"] and size > b["max_full"]) else None))
+                stratum = list(b["stratum"]) if (b["stratum"] and size > b["max_full"]) else None
+                if stratum and size >= 8:
+                    stratum = [81, b["stratum"][1] % 81]  # 3-D labels without size-1 dims: 6561 arrays, one stratum of 81
+                out.append(dict(shape=list(shp), extra=extra, part=part, nparts=nparts, tier=tier, stratum=stratum))
     out.sort(key=lambda s: -int(np.prod(s["shape"])))
     return out
 
@@ -203,7 +205,7 @@ def run_shard(shard):
                 check_point(res, func, lab_shape, extra, lt, axis)
                 res.nontrivial += 1 if uneven else 0
             # chunked: canonical spellings of the axis only (order/sign variants are covered eagerly)
-            if not canonical or (quick and size > 4):
+            if not canonical or (quick and size > 4 and size < 8):
                 continue
             for grid in grids if not quick else grids[:2] + grids[-1:]:
                 for func in CHUNKED_FUNCS if not quick else ("sum", "nanmax", "nanargmax"):
